@@ -371,3 +371,48 @@ def name_helpers(inp):
         obs["att2name"] = outcome(att2name, name)
     bad = {k: (exp[k], obs[k][:2]) for k in exp if tuple(exp[k]) != tuple(obs[k][:2])}
     return {"fails": bool(bad), "expected": {k: v[0] for k, v in bad.items()}, "observed": {k: v[1] for k, v in bad.items()}, "name": name}
+
+
+@check
+def history_independence(inp):
+    """C13: a sequence of parses (constructor and static parser, incl. failing ones); every result must equal the
+    history-free reference decode, and the definition tables must be unchanged afterwards."""
+    import copy
+    from pyrtcm import RTCMReader
+    from spec import refdecode
+    from spec.streams import frame
+    core, g, m, i, prnsig = refdecode.tables()
+    snap = copy.deepcopy((g, m, i, core.RTCM_DATA_FIELDS, prnsig, core.RTCM_MSGIDS, core.GNSSMAP))
+    for k, (phex, lm, via) in enumerate(inp["sequence"]):
+        p = bytes.fromhex(phex)
+        exp = refdecode.ref_decode(p, lm)
+        if via == "parse":
+            try:
+                msg = RTCMReader.parse(frame(p), labelmsm=lm)
+                obs = ("ok", {a: v for a, v in msg.__dict__.items() if not a.startswith("_")})
+            except BaseException as e:  # noqa
+                obs = ("error", type(e).__name__)
+        else:
+            obs = refdecode.real_decode(p, lm)[:2]
+        short = len(p) < 2 or (len(p) < 3 and p[0] == 0xFE and p[1] >> 4 == 0xC)
+        if short:
+            exp = ("error", "too short")
+        if exp[0] != obs[0] or (exp[0] == "ok" and exp[1] != obs[1]):
+            diff = None
+            if exp[0] == obs[0] == "ok":
+                diff = {a: (exp[1].get(a), obs[1].get(a)) for a in set(exp[1]) | set(obs[1]) if exp[1].get(a) != obs[1].get(a)}
+                diff = dict(sorted(diff.items())[:4])
+            return {"fails": True, "expected": f"step {k}: same result as parsing these bytes alone ({exp[0]})", "observed": diff or obs[:2]}
+    after = (g, m, i, core.RTCM_DATA_FIELDS, prnsig, core.RTCM_MSGIDS, core.GNSSMAP)
+    if snap != after:
+        return {"fails": True, "expected": "definition and lookup tables unchanged", "observed": "tables modified"}
+    return {"fails": False, "steps": len(inp["sequence"])}
+
+
+@check
+def frame_scan(inp):
+    from props import C13
+    for n, ok, d in C13.scan():
+        if n == inp["obligation"]:
+            return {"fails": not ok, "expected": "holds", "observed": d}
+    return {"fails": False, "observed": "obligation no longer generated"}
